@@ -379,8 +379,13 @@ impl MemTable {
         let mut total_deleted: u64 = 0;
         let df_schema = DFSchema::try_from(Arc::clone(&self.schema))?;
 
+        // Evaluate the statement on every partition first and publish the new
+        // contents only after all of them succeeded, so that a statement that
+        // fails (e.g. division by zero) leaves the table unchanged.
+        let mut staged = Vec::with_capacity(self.batches.len());
+
         for partition_data in &self.batches {
-            let mut partition = partition_data.write().await;
+            let partition = partition_data.write().await;
             let mut new_batches = Vec::with_capacity(partition.len());
 
             for batch in partition.iter() {
@@ -422,6 +427,10 @@ impl MemTable {
                 }
             }
 
+            staged.push((partition, new_batches));
+        }
+
+        for (mut partition, new_batches) in staged {
             *partition = new_batches;
         }
 
@@ -485,8 +494,13 @@ impl MemTable {
 
         let mut total_updated: u64 = 0;
 
+        // Evaluate the statement on every partition first and publish the new
+        // contents only after all of them succeeded, so that a statement that
+        // fails (e.g. division by zero) leaves the table unchanged.
+        let mut staged = Vec::with_capacity(self.batches.len());
+
         for partition_data in &self.batches {
-            let mut partition = partition_data.write().await;
+            let partition = partition_data.write().await;
             let mut new_batches = Vec::with_capacity(partition.len());
 
             for batch in partition.iter() {
@@ -566,6 +580,10 @@ impl MemTable {
                 new_batches.push(updated_batch);
             }
 
+            staged.push((partition, new_batches));
+        }
+
+        for (mut partition, new_batches) in staged {
             *partition = new_batches;
         }
 
